@@ -29,6 +29,10 @@ def canon(line):
     for kv in d.split():
         if '=' in kv:
             k, v = kv.split('=', 1)
+            # a late-bound variable whose declaring state was never entered does not exist yet: Lua reports nil,
+            # the Promela datamodel false (undeclared reads false); the model's store has no entry for it
+            if v in ('nil', 'false'):
+                continue
             data[k] = v
     return toks, data
 
